@@ -1636,4 +1636,258 @@ theorem ufunc_homomorphism_rel {α β γ : Type} (eq : γ → γ → Bool) (hs :
     rw [ofPairs_dense, ← ha2, ← hb2, ← zipRuns_dense f _ _ 0 ha1.mono hb1.mono]
     exact joinPairsBy_rel eq hs ht _ 0 hz.mono
 
+/-! ## expression trees: evaluation on run-length arrays = the same tree on dense arrays -/
+
+def GArr.dense (g : GArr) : List Int × Bool := (g.rle.toDense, g.isBool)
+
+/-- **tree homomorphism** (int64 / bool genomic arrays): for every expression tree over
+{+, −, *, <, >, ==, &, |, ~, unary −, scalars on either side} and well-formed leaves, evaluating the tree on the
+run-length arrays succeeds exactly when the dense evaluation is well typed, gives a well-formed array of the same
+boolean-ness, and its dense meaning is the dense evaluation -/
+theorem eval_homomorphism (leaves : List GArr) (hl : ∀ g ∈ leaves, g.rle.WF) (e : Expr) :
+    (e.eval leaves).map GArr.dense = e.denote (leaves.map GArr.dense) ∧
+    ∀ g, e.eval leaves = some g → g.rle.WF := by
+  induction e with
+  | leaf i =>
+    constructor
+    · simp only [Expr.eval, Expr.denote, List.getElem?_map]
+    · intro g hg
+      simp only [Expr.eval] at hg
+      exact hl g (List.mem_of_getElem? hg)
+  | un f a ih =>
+    obtain ⟨ih1, ih2⟩ := ih
+    simp only [Expr.eval, Expr.denote]
+    rw [← ih1]
+    cases ha : a.eval leaves with
+    | none => simp
+    | some x =>
+      have hx := ih2 x ha
+      cases ht : f.typ x.isBool with
+      | none => simp [GArr.dense, ht]
+      | some t =>
+        constructor
+        · simp [GArr.dense, ht, mapRle_dense]
+        · intro g hg
+          simp only [Option.map_some, GArr.dense, ht, Option.bind_eq_bind, Option.bind_some, Option.pure_def,
+            Option.some.injEq] at hg
+          rw [← hg]; exact mapRle_WF _ _ hx
+  | bin f a b iha ihb =>
+    obtain ⟨ia1, ia2⟩ := iha
+    obtain ⟨ib1, ib2⟩ := ihb
+    simp only [Expr.eval, Expr.denote]
+    rw [← ia1, ← ib1]
+    cases ha : a.eval leaves with
+    | none => simp
+    | some x =>
+      cases hb : b.eval leaves with
+      | none => simp
+      | some y =>
+        have hx := ia2 x ha
+        have hy := ib2 y hb
+        have hh := ufunc_homomorphism f.fn x.rle y.rle hx hy
+        cases ht : f.typ x.isBool y.isBool with
+        | none => simp [GArr.dense, ht]
+        | some t =>
+          constructor
+          · simp [GArr.dense, ht, hh.2]
+          · intro g hg
+            simp only [Option.map_some, GArr.dense, ht, Option.bind_eq_bind, Option.bind_some, Option.pure_def,
+              Option.some.injEq] at hg
+            rw [← hg]; exact hh.1
+  | scr f a k ih =>
+    obtain ⟨ih1, ih2⟩ := ih
+    simp only [Expr.eval, Expr.denote]
+    rw [← ih1]
+    cases ha : a.eval leaves with
+    | none => simp
+    | some x =>
+      have hx := ih2 x ha
+      cases ht : f.typ x.isBool false with
+      | none => simp [GArr.dense, ht]
+      | some t =>
+        constructor
+        · simp [GArr.dense, ht, mapRle_dense]
+        · intro g hg
+          simp only [Option.map_some, GArr.dense, ht, Option.bind_eq_bind, Option.bind_some, Option.pure_def,
+            Option.some.injEq] at hg
+          rw [← hg]; exact mapRle_WF _ _ hx
+  | scl f k a ih =>
+    obtain ⟨ih1, ih2⟩ := ih
+    simp only [Expr.eval, Expr.denote]
+    rw [← ih1]
+    cases ha : a.eval leaves with
+    | none => simp
+    | some x =>
+      have hx := ih2 x ha
+      cases ht : f.typ false x.isBool with
+      | none => simp [GArr.dense, ht]
+      | some t =>
+        constructor
+        · simp [GArr.dense, ht, mapRle_dense]
+        · intro g hg
+          simp only [Option.map_some, GArr.dense, ht, Option.bind_eq_bind, Option.bind_some, Option.pure_def,
+            Option.some.injEq] at hg
+          rw [← hg]; exact mapRle_WF _ _ hx
+
+/-- on boolean arrays (values 0 / 1) the model's `&`, `|`, `~` are NumPy's: logical and bitwise meaning coincide -/
+theorem bool_ops_on_bits : ∀ x ∈ [(0 : Int), 1], ∀ y ∈ [(0 : Int), 1],
+    BinOp.and.fn x y = (if x = 1 ∧ y = 1 then 1 else 0) ∧ BinOp.or.fn x y = (if x = 1 ∨ y = 1 then 1 else 0) ∧
+    UnOp.not.fn x = 1 - x := by decide
+
+example : (Expr.bin .and (.scr .gt (.leaf 0) 1) (.un .not (.leaf 1))).eval
+    [⟨⟨[0, 2, 5], [1, 3]⟩, false⟩, ⟨⟨[0, 4, 5], [1, 0]⟩, true⟩] ≠ none := by decide
+
+theorem RelL.map {V W : Type} {R : V → V → Prop} {S : W → W → Prop} (g : V → W) (hg : ∀ a b, R a b → S (g a) (g b)) :
+    ∀ {l₁ l₂ : List V}, RelL R l₁ l₂ → RelL S (l₁.map g) (l₂.map g) := by
+  intro l₁
+  induction l₁ with
+  | nil => intro l₂ h; cases l₂ with
+    | nil => exact ⟨rfl, by simp⟩
+    | cons _ _ => have := h.1; simp at this
+  | cons a l₁ ih =>
+    intro l₂ h
+    cases l₂ with
+    | nil => have := h.1; simp at this
+    | cons b l₂ =>
+      have h' : RelL R l₁ l₂ := ⟨by simpa using h.1, fun p hp => h.2 p (by simp [hp])⟩
+      have := ih h'
+      refine ⟨by simp [this.1], ?_⟩
+      intro p hp
+      simp only [List.map_cons, List.zip_cons_cons, List.mem_cons] at hp
+      rcases hp with rfl | hp
+      · exact hg _ _ (h.2 (a, b) (by simp))
+      · exact this.2 p hp
+
+theorem RelL.zipWith {V : Type} {R : V → V → Prop} (f : V → V → V) (hf : ∀ a a' b b', R a a' → R b b' → R (f a b) (f a' b')) :
+    ∀ {x x' y y' : List V}, RelL R x x' → RelL R y y' → RelL R (List.zipWith f x y) (List.zipWith f x' y') := by
+  intro x
+  induction x with
+  | nil => intro x' y y' hx _; cases x' with
+    | nil => exact ⟨by simp, by simp⟩
+    | cons _ _ => have := hx.1; simp at this
+  | cons a x ih =>
+    intro x' y y' hx hy
+    cases x' with
+    | nil => have := hx.1; simp at this
+    | cons a' x' =>
+      cases y with
+      | nil => cases y' with
+        | nil => exact ⟨by simp, by simp⟩
+        | cons _ _ => have := hy.1; simp at this
+      | cons b y =>
+        cases y' with
+        | nil => have := hy.1; simp at this
+        | cons b' y' =>
+          have hx' : RelL R x x' := ⟨by simpa using hx.1, fun p hp => hx.2 p (by simp [hp])⟩
+          have hy' : RelL R y y' := ⟨by simpa using hy.1, fun p hp => hy.2 p (by simp [hp])⟩
+          have := ih hx' hy'
+          refine ⟨by simp [this.1], ?_⟩
+          intro p hp
+          simp only [List.zipWith_cons_cons, List.zip_cons_cons, List.mem_cons] at hp
+          rcases hp with rfl | hp
+          · exact hf _ _ _ _ (hx.2 (a, a') (by simp)) (hy.2 (b, b') (by simp))
+          · exact this.2 p hp
+
+/-- **tree homomorphism for the float engine** (generic in the value type): if the engine's equality test is an
+equivalence that the operations respect — IEEE `==` with `+ − *` and negation on finite doubles: equal up to the sign of
+zero — then evaluating any arithmetic tree on run-length arrays gives a well-formed array whose dense meaning agrees
+with the dense evaluation at every position *up to the test*. The hypotheses about IEEE arithmetic cannot be proved in
+Lean (`Float` is opaque); they are what the correspondence (bitwise comparison with NumPy after mapping −0.0 to +0.0)
+exercises. With Lean's `=` as the test the conclusion is equality (`ufunc_homomorphism`). -/
+theorem fexpr_homomorphism {V : Type} (eq : V → V → Bool) (ng : V → V) (op : FOp → V → V → V)
+    (hs : ∀ a b, eq a b = true → eq b a = true) (ht : ∀ a b c, eq a b = true → eq b c = true → eq a c = true)
+    (hop : ∀ f a a' b b', EqOr eq a a' → EqOr eq b b' → EqOr eq (op f a b) (op f a' b'))
+    (hng : ∀ a a', EqOr eq a a' → EqOr eq (ng a) (ng a'))
+    (leaves : List (Rle V)) (hl : ∀ r ∈ leaves, r.WF) (e : FExpr V) :
+    (e.evalG eq ng op leaves).WF ∧
+    RelL (EqOr eq) (e.evalG eq ng op leaves).toDense (e.denoteG ng op (leaves.map Rle.toDense)) := by
+  induction e with
+  | leaf i =>
+    simp only [FExpr.evalG, FExpr.denoteG]
+    by_cases hi : i < leaves.length
+    · have h1 : leaves.getD i ⟨[0], []⟩ = leaves[i] := by simp [List.getD, hi]
+      have h2 : (leaves.map Rle.toDense).getD i [] = leaves[i].toDense := by simp [List.getD, hi]
+      rw [h1, h2]
+      exact ⟨hl _ (List.getElem_mem hi), RelL.refl (EqOr.refl eq) _⟩
+    · have h1 : leaves.getD i ⟨[0], []⟩ = ⟨[0], []⟩ := by simp [List.getD, List.getElem?_eq_none (Nat.le_of_not_lt hi)]
+      have h2 : (leaves.map Rle.toDense).getD i [] = [] := by
+        simp [List.getD, List.getElem?_eq_none (Nat.le_of_not_lt hi)]
+      rw [h1, h2]
+      exact ⟨⟨rfl, rfl, by simp⟩, RelL.refl (EqOr.refl eq) _⟩
+  | neg a ih =>
+    simp only [FExpr.evalG, FExpr.denoteG]
+    exact ⟨mapRle_WF _ _ ih.1, by rw [mapRle_dense]; exact RelL.map ng hng ih.2⟩
+  | bin f a b iha ihb =>
+    simp only [FExpr.evalG, FExpr.denoteG]
+    obtain ⟨h1, h2⟩ := ufunc_homomorphism_rel eq hs ht (op f) _ _ iha.1 ihb.1
+    exact ⟨h1, RelL.trans (EqOr.trans' ht) h2 (RelL.zipWith (op f) (hop f) iha.2 ihb.2)⟩
+  | scr f a k ih =>
+    simp only [FExpr.evalG, FExpr.denoteG]
+    exact ⟨mapRle_WF _ _ ih.1, by
+      rw [mapRle_dense]
+      exact RelL.map _ (fun x y h => hop f x y k k h (EqOr.refl eq k)) ih.2⟩
+
+/-- the hypotheses are satisfiable: integers with `x ≡ y (mod 4)` as the (non-trivial) equality test, which `+ − *`
+and negation respect -/
+example : (∀ a b : Int, (a % 4 == b % 4) = true → (b % 4 == a % 4) = true) ∧
+    (∀ a b c : Int, (a % 4 == b % 4) = true → (b % 4 == c % 4) = true → (a % 4 == c % 4) = true) := by
+  constructor
+  · intro a b h; simp only [beq_iff_eq] at h ⊢; omega
+  · intro a b c h1 h2; simp only [beq_iff_eq] at h1 h2 ⊢; omega
+
+/-- inside the array (`b ≤ len`, the only region where `sliceRle` is the specification of npstructures — beyond it
+npstructures pads with the last value, which was defect 84d3e59) a slice has exactly `b − a` entries -/
+theorem slice_length {V : Type} (r : Rle V) (h : r.WF) (a b : Nat) (hab : a ≤ b) (hb : b ≤ r.len) :
+    (sliceRle r a b).toDense.length = b - a := by
+  rw [(slice_dense r h a b).2.1, List.length_take, List.length_drop, toDense_length r h]; omega
+
+/-- **end to end `to_dict()`** for any word type with an xor (`Bool`/`xor`, 64-bit words/`Nat.xor`): the array that
+`Genome.get_track(bedgraph).to_dict()[chromosome i]` computes — records shifted by chromosome offsets, one genome-wide
+run-length array, slice, xor-diff / scatter / xor-accumulate — is the dense array of chromosome i's records -/
+theorem to_dict_dense {V : Type} (op : V → V → V) (zero : V) (hz : ∀ a, op a zero = a) (hxx : ∀ a b, op a (op a b) = b)
+    (sizes : List Nat) (recs : List (Nat × Rec V)) (h : OkTrack sizes recs) (hsz : 0 < sizes.sum) (i : Nat)
+    (hi : i < sizes.length) :
+    (sliceRle (fromBedgraph zero (toGlobal sizes recs) (some sizes.sum)) (off sizes i) (off sizes i + sizes.getD i 0)).toArray op zero
+      = specDense zero (localRecs recs i) (sizes.getD i 0) := by
+  obtain ⟨hwf, hd⟩ := track_dense zero sizes recs h hsz i hi
+  rw [C08.toArray_dense op zero hz hxx _ (slice_dense _ hwf _ _).1, hd]
+
+theorem list_eq_map_range {β : Type} (f : Nat → β) (l : List β) (n : Nat) (hl : l.length = n)
+    (h : ∀ p, p < n → l[p]? = some (f p)) : (List.range n).map f = l := by
+  apply List.ext_getElem?
+  intro p
+  by_cases hp : p < n
+  · rw [h p hp]; simp [hp]
+  · have h1 : l[p]? = none := List.getElem?_eq_none (by omega)
+    rw [h1]; simp; omega
+
+/-- **boolean round trip, list level**: the intervals `get_data()` reports for a boolean chromosome slice are non-empty,
+in increasing order, non-overlapping, inside the chromosome, and the mask of those intervals is the dense slice -/
+theorem back_conversion_bool_list (r : Rle Bool) (h : r.WF) (a b : Nat) (hab : a ≤ b) (hb : b ≤ r.len) :
+    let ivs := dataIntervals (sliceRle r a b)
+    ivs.Pairwise (fun x y => x.2 ≤ y.1) ∧ (∀ x ∈ ivs, x.1 < x.2) ∧
+    (List.range (b - a)).map (fun p => C08.covered ivs p) = (r.toDense.drop a).take (b - a) := by
+  intro ivs
+  obtain ⟨hC, hP, hN, hE⟩ := back_conversion r h a b
+  refine ⟨?_, ?_, ?_⟩
+  · simp only [ivs, dataIntervals]
+    refine List.pairwise_map.2 (List.Pairwise.filter _ ?_)
+    exact hP
+  · intro x hx
+    simp only [ivs, dataIntervals] at hx
+    obtain ⟨y, hy, rfl⟩ := List.mem_map.1 hx
+    exact hN y (List.mem_filter.1 hy).1
+  · have hlen : ((r.toDense.drop a).take (b - a)).length = b - a := by
+      rw [List.length_take, List.length_drop, toDense_length r h]; omega
+    apply list_eq_map_range _ _ _ hlen
+    intro p hp
+    have := back_conversion_bool r h a b p
+    rw [this]
+    have hp' : p < ((r.toDense.drop a).take (b - a)).length := by omega
+    rw [List.getElem?_eq_getElem hp']
+    simp
+
+example : (⟨[0, 2, 5, 9], [true, false, true]⟩ : Rle Bool).WF ∧
+    dataIntervals (sliceRle (⟨[0, 2, 5, 9], [true, false, true]⟩ : Rle Bool) 1 7) = [(0, 1), (4, 6)] := by decide
+
 end C09
